@@ -50,6 +50,8 @@ FLOORS = {
                                                    "function.invariant_evaluated": 1000,
                                                    "c03.order_pairs_compared": 40000}},
 }
+# W5: the repository's own test suite runs once under these ambient monitors (thorough tier)
+W5_MONITORS = ['table']
 CASE_TIMEOUT = {"quick": 60, "thorough": 120}
 SIZES = {"quick": 1400, "thorough": 30000}
 
